@@ -82,11 +82,32 @@ def run_job(job, wdir, idx):
     return job
 
 
+SKIPPED_CONFIGS = {}
+
+
 def run_jobs(jobs, prop, par=None):
     wdir = _workdir(prop)
     # build every needed configuration first (serially: each build already uses all cores)
+    # A tree that compiles in the repository's own configuration may still not compile in every configuration of
+    # the harness (code under another set of debug options): such a configuration is left out, loudly, and the
+    # check decides on the others.  Nothing left, or the baseline configuration broken = infrastructure error.
+    broken = {}
     for cfg, drv in sorted({(j.cfg, j.driver) for j in jobs}):
-        build.ensure_build(cfg, drv)
+        if cfg in broken:
+            continue
+        try:
+            build.ensure_build(cfg, drv)
+        except InfraError as e:
+            broken[cfg] = str(e)
+    if broken:
+        kept = [j for j in jobs if j.cfg not in broken]
+        if not kept or "base" in broken:
+            raise InfraError(next(iter(broken.values())))
+        for cfg, why in sorted(broken.items()):
+            log("[skip] configuration %s does not build on this tree, its %d job(s) are left out:\n%s"
+                % (cfg, sum(1 for j in jobs if j.cfg == cfg), why[-1200:]))
+        SKIPPED_CONFIGS.update(broken)
+        jobs[:] = kept
     par = par or max(1, min(8, NCPU // 2))
     with ThreadPoolExecutor(max_workers=par) as ex:
         futs = [ex.submit(run_job, j, wdir, i) for i, j in enumerate(jobs)]
